@@ -836,6 +836,7 @@ func AdoptSession(p Persistence, c *Config) (client *Client, warn []error, fatal
 
 	// storage includes a sequence number
 	storeOrderPerKey := make(map[uint]uint64, len(keys))
+	var storageSeqNoMax uint64 // continues the sequence
 
 	// “When a Client reconnects with CleanSession set to 0, both the Client
 	// and Server MUST re-send any unacknowledged PUBLISH Packets (where QoS
@@ -864,6 +865,7 @@ func AdoptSession(p Persistence, c *Config) (client *Client, warn []error, fatal
 		}
 
 		storeOrderPerKey[key] = storageSeqNo
+		storageSeqNoMax = max(storageSeqNoMax, storageSeqNo)
 
 		switch packet[0] >> 4 {
 		case typePUBLISH:
@@ -902,7 +904,9 @@ func AdoptSession(p Persistence, c *Config) (client *Client, warn []error, fatal
 	}
 
 	// instantiate client; normalizes the limits in c
-	client = newClient(&ruggedPersistence{Persistence: p}, c)
+	persistence := &ruggedPersistence{Persistence: p}
+	persistence.seqNo.Store(storageSeqNoMax)
+	client = newClient(persistence, c)
 	if n := len(publishAtLeastOnceKeys); n > c.AtLeastOnceMax {
 		return nil, warn, fmt.Errorf("mqtt: %d AtLeastOnceMax is less than the %d pending in session", c.AtLeastOnceMax, n)
 	}
